@@ -75,6 +75,9 @@ REQUIRED_THEOREMS = [
     "source_connection_vertices_feature_ring_closes", "source_connection_vertices_interior_ring_closes",
     "source_initialize_attributes_faces_default", "source_initialize_attributes_faces_custom", "source_initialize_attributes_vertices_default",
     "source_initialize_attributes_vertices_defect", "source_laplacian_triangles_flat",
+    # round 8: cotan_edge_diagonal, flat connection on vertices, options read by the constructors
+    "source_cotan_opposite_slot", "source_cotan_edge_weight_regular", "source_cotan_edge_weight_degenerate", "source_laplacian_triangles_row_weight",
+    "source_laplacian_vertices_flat", "source_ctor_options_cover_harness",
 ]
 TRUSTED = [
     "Lean 4.33.0 kernel; axioms ⊆ {propext, Classical.choice, Quot.sound}",
@@ -145,7 +148,7 @@ SOURCE_MAP = {
     _FF + "base.py::FrameField.export_as_mesh": "out-of-scope: abstract method",
     _FF + "base.py::FrameField.flag_singularities": "out-of-scope: abstract method",
     # ---- faces2d.py
-    _FF + "faces2d.py::_BaseFrameField2DFaces.__init__": "oracle-only: stores the options; the harness passes every option explicitly (defaults are not quantified over); custom_connection / custom_features enter the translated _initialize_attributes as its input state",
+    _FF + "faces2d.py::_BaseFrameField2DFaces.__init__": "translated: fragments (positional parameters and kwargs.get option names with defaults -> C18S.ctorOptionsFaces; source_ctor_options_cover_harness: every option the harness passes explicitly is read); values are stored only",
     _FF + "faces2d.py::_BaseFrameField2DFaces._initialize_attributes": "translated: imperative (C18S.initializeAttributesFaces: cot not persisted, default detector only_border = not features, connection built on the field's feature set, custom ones kept; source_initialize_attributes_faces_default / _custom)",
     _FF + "faces2d.py::_BaseFrameField2DFaces._initialize_variables": "translated: imperative (C18S.initVariablesFaces; bridge_init_variables_faces)",
     _FF + "faces2d.py::_BaseFrameField2DFaces._compute_attach_weight": "translated: fragments (filter threshold, fail value, abs(min); bridge_attach_weight)",
@@ -158,7 +161,7 @@ SOURCE_MAP = {
     _FF + "faces2d.py::TrivialConnectionFaces.initialize": "out-of-scope: trivial connections are outside the quantifier of C18",
     _FF + "faces2d.py::TrivialConnectionFaces.optimize": "out-of-scope: trivial connections are outside the quantifier of C18",
     # ---- vertex2d.py
-    _FF + "vertex2d.py::_BaseFrameField2DVertices.__init__": "oracle-only: stores the options and creates the zero field the translated _initialize_variables starts from; every option is passed explicitly by the harness",
+    _FF + "vertex2d.py::_BaseFrameField2DVertices.__init__": "translated: fragments (C18S.ctorOptionsVerts; source_ctor_options_cover_harness); also creates the zero field the translated _initialize_variables starts from",
     _FF + "vertex2d.py::_BaseFrameField2DVertices._initialize_attributes": "translated: imperative (C18S.initializeAttributesVerts + defectSumsVerts: cot refreshed on the mesh, detector with corner_order = order, connection on the feature set, defect loop; source_initialize_attributes_vertices_default / _defect)",
     _FF + "vertex2d.py::_BaseFrameField2DVertices._initialize_variables": "translated: imperative (C18S.initVariablesVerts, whole body; bridge_init_variables_vertices to FFV.initVertsFull under the contract of abs)",
     _FF + "vertex2d.py::_BaseFrameField2DVertices._compute_attach_weight": "translated: fragments (same constants as the face-based one; bridge_attach_weight)",
@@ -183,7 +186,7 @@ SOURCE_MAP = {
     "mouette/processing/connection.py::SurfaceConnectionVertices._initialize": "translated: imperative (C18S.connVertsFirst / connVertsRingFeature / connVertsRingInterior / connVertsTransport, whole body; source_connection_vertices_ring; formulas bridge_connection_formulas); the 3-D basis vectors themselves are oracle-only",
     "mouette/processing/connection.py::FlatConnectionVertices.__init__": "oracle-only: only used by the oracle's flat-connection clause (planar meshes)",
     "mouette/processing/connection.py::FlatConnectionVertices._initialize": "out-of-scope: empty body",
-    "mouette/processing/connection.py::FlatConnectionVertices.transport": "oracle-only: arctan2 of the edge direction; used by the oracle's flat-connection clause (the translated vertex operator is compared with the scalar one numerically)",
+    "mouette/processing/connection.py::FlatConnectionVertices.transport": "translated: imperative (C18S.flatVertsTransport: arctan2 of vertices[iB] - vertices[iA]; source_laplacian_vertices_flat: the connection triplets are the scalar triplets)",
     "mouette/processing/connection.py::FlatConnectionVertices.base": "out-of-scope: constant basis, not read by the operators",
     "mouette/processing/connection.py::FlatConnectionVertices.project": "out-of-scope: not read by the operators",
     "mouette/processing/connection.py::SurfaceConnectionFaces.__init__": "oracle-only: forwards to SurfaceConnection.__init__",
@@ -199,7 +202,7 @@ SOURCE_MAP = {
     "mouette/operators/laplacian_op.py::graph_laplacian": "out-of-scope: not used by the surface frame fields",
     "mouette/operators/laplacian_op.py::graph_laplacian.add": "out-of-scope: not used by the surface frame fields",
     "mouette/operators/laplacian_op.py::laplacian": "translated: imperative (C18S.laplacianTriplets: every triplet in fill order; bridge_laplacian_vertices to FF.entryVert / coeff; source_laplacian_vertices_hermitian)",
-    "mouette/operators/laplacian_op.py::cotan_edge_diagonal": "oracle-only: the diagonal is the parameter `dw` of the translated laplacian_triangles (Hermitian / flat clauses hold for ANY weights); values compared with the model per run",
+    "mouette/operators/laplacian_op.py::cotan_edge_diagonal": "translated: imperative (C18S.oppositeSlot / cotanEdgeWeight / cotanEdgeDiagonal: opposite-vertex index, border side counts 0, 1e-8 guard with the 1e8 cap, inverse or not; source_cotan_edge_weight_regular / _degenerate, source_laplacian_triangles_row_weight: it is the `dw` of the translated face operator)",
     "mouette/operators/laplacian_op.py::laplacian_triangles": "translated: imperative (C18S.nablaRows / nablaRowWeight: rows of Nabla, returned product; bridge_laplacian_triangles to FF.entryFace / coeff; source_laplacian_triangles_hermitian)",
     "mouette/operators/laplacian_op.py::laplacian_edges": "out-of-scope: not used by the surface frame fields",
     "mouette/operators/laplacian_op.py::volume_laplacian": "out-of-scope: volumes",
@@ -1517,7 +1520,10 @@ MANIFEST = {
                    "(Props/C18Mesh.lean: the loop sees a permutation of the incident (other end, rotation) pairs; no hypothesis on the mesh left); the ring loops of the vertex connection "
                    "are given in closed form (prefix sums) and close on dfct = corners*2pi/order at feature vertices and on one turn elsewhere; _initialize_attributes of both fields is "
                    "translated (default detector only_border = not features, connection built on the field's own feature set, cotan refreshed on the mesh by the vertex field only, defect "
-                   "loop = sum of corner angles per vertex); FlatConnectionFaces.transport is translated and the connection rows of Nabla are proved equal to the scalar rows for it."),
+                   "loop = sum of corner angles per vertex); FlatConnectionFaces.transport is translated and the connection rows of Nabla are proved equal to the scalar rows for it. "
+                   "Round 8: operators.cotan_edge_diagonal (the row weights of the face operator: opposite-vertex index, border side 0, 1e-8 guard with the 1e8 cap) is translated "
+                   "(positive and bounded on non-degenerate edges); FlatConnectionVertices.transport is translated and the triplets of the vertex operator are proved EQUAL to the scalar "
+                   "triplets for it (U of a whole number of turns is 1); the option names read by the two constructors are extracted and shown to cover what the harness passes."),
     "level_note": ("Trusted: Lean kernel + propext/Classical.choice/Quot.sound; the ast translator for 4 constant sites; the hand-written "
                    "model, tied to the code by feeding it the implementation's own per-edge transports / weights / phases / solver output "
                    "and comparing assembled matrix, partition, constraints, normalised field, edge rotations and vertex sums at 1e-9; "
